@@ -643,7 +643,18 @@ func (m *Manager) persistState() error {
 		return err
 	}
 
-	return os.WriteFile(m.stateFile, data, 0600)
+	// Write to a temporary file and rename it over the state file, so that a
+	// crash mid-write leaves either the previous or the new state on disk and
+	// never a truncated file (which would bring a sleeping agent up awake).
+	tmpFile := m.stateFile + ".tmp"
+	if err := os.WriteFile(tmpFile, data, 0600); err != nil {
+		return err
+	}
+	if err := os.Rename(tmpFile, m.stateFile); err != nil {
+		os.Remove(tmpFile)
+		return err
+	}
+	return nil
 }
 
 // LoadState loads persisted state from disk.
